@@ -488,7 +488,7 @@ def MISO_numeric_optimal_spectral_analysis(
     for i in range(q):
         for j in range(i + 1, q):
             obj = get_ltf_result(
-                f"T{i + 1}{j + 1}", [input_arrays[i], input_arrays[j]], fs, **kwargs
+                f"T{i + 1}_{j + 1}", [input_arrays[i], input_arrays[j]], fs, **kwargs
             )
             Tmat[i, j, :] = obj.Gxy
             Tmat[j, i, :] = np.conj(obj.Gxy)
